@@ -174,7 +174,9 @@ func init() {
 	// ---- time --------------------------------------------------------------------------------
 	I["(time.Time).Unix"] = func(fc *FCtx, st *State, e *ast.CallExpr, r *Val, a []Val) []Val {
 		t := fmt.Sprintf("(div %s 1000000000)", r.T)
-		// Unix() returns int64; times outside the int64-seconds range are not representable in protobuf
+		// Unix() returns int64: a time.Time holds its seconds in an int64, so every representable time has Unix seconds
+		// in the int64 range (fact about the type, like the range of any other int64 value)
+		st.assume(app("in_int64", t))
 		return []Val{{T: t, S: SInt, GoT: types.Typ[types.Int64]}}
 	}
 	I["(time.Time).UnixNano"] = func(fc *FCtx, st *State, e *ast.CallExpr, r *Val, a []Val) []Val {
